@@ -1,6 +1,23 @@
-(* Properties_C19.v — extended as proofs land *)
+(* Properties_C19.v — C19: visiting enumerates members faithfully. *)
 From Coq Require Import ZArith List.
-From Sbepp Require Import Bytes BytesFacts.
-Theorem C19_codec_round_trip : forall be w x, dec be (enc be w x) = (x mod 256 ^ Z.of_nat w)%Z.
-Proof. exact dec_enc. Qed.
-Print Assumptions C19_codec_round_trip.
+From Sbepp Require Import CInt Bytes Msg Layout Wire MsgSpec Cursor CursorSpec CursorProofs Bitset BitsetProofs.
+Import ListNotations.
+Local Open Scope Z_scope.
+
+(* a complete visit of the image of any well-formed value tree produces exactly
+   CursorSpec.ev_level: every non-constant field of a level once, in schema
+   order, at the address the named accessor reads; every group with its count;
+   every entry in order at the address where the previous one ends; every data
+   member with its length -- and leaves the cursor at the end of the view *)
+Theorem C19_visit_events_and_cursor_end : stmt_trav_message_enc''.
+Proof. exact trav_message_enc''. Qed.
+Print Assumptions C19_visit_events_and_cursor_end.
+
+(* visiting a set reports every declared choice with its bit, in declaration
+   order (shared with C15) *)
+Theorem C19_set_visit : forall T bits idx,
+  is_set_type T = true -> in_range T bits = true ->
+  Forall (fun n => 0 <= n < CInt.bits T) idx ->
+  visit_set T bits idx = map (fun n => Some (Z.testbit bits n)) idx.
+Proof. exact visit_set_spec. Qed.
+Print Assumptions C19_set_visit.
